@@ -67,6 +67,8 @@ func (s *Shape) String() string {
 		return "rv(" + s.A[0].String() + ")"
 	case "closure":
 		return "closure:" + s.S
+	case "list":
+		return "[" + joinShapes(s.A, ",") + "]"
 	}
 	return "?" + s.K
 }
@@ -267,6 +269,28 @@ func isRangeIndexPhi(p *ssa.Phi) bool {
 
 // mkFld selects a field; selecting from a literal yields the field's value.
 func mkFld(base *Shape, name string) *Shape {
+	if base.K == "idx" {
+		// element of a locally built slice of literals: select the field of the appended literals
+		if elems := sliceElems(base.A[0], 0); len(elems) > 0 {
+			var alts []*Shape
+			ok := true
+			for _, e := range elems {
+				if e.K != "lit" {
+					ok = false
+					break
+				}
+				f := mkFld(e, name)
+				if f.K == "fld" && f.A[0] == e {
+					ok = false
+					break
+				}
+				alts = append(alts, f)
+			}
+			if ok && len(alts) > 0 {
+				return mkPhi(alts)
+			}
+		}
+	}
 	if base.K == "lit" {
 		for i, f := range base.F {
 			if f == name {
@@ -275,6 +299,30 @@ func mkFld(base *Shape, name string) *Shape {
 		}
 	}
 	return &Shape{K: "fld", S: name, A: []*Shape{base}}
+}
+
+// sliceElems lists the element shapes of a slice built by append(..., [e...]).
+func sliceElems(s *Shape, depth int) []*Shape {
+	if depth > 6 {
+		return nil
+	}
+	switch {
+	case s.K == "call" && s.S == "append" && len(s.A) == 2:
+		out := sliceElems(s.A[0], depth+1)
+		if s.A[1].K == "list" {
+			out = append(out, s.A[1].A...)
+		} else {
+			return nil
+		}
+		return out
+	case s.K == "phi":
+		var out []*Shape
+		for _, a := range s.A {
+			out = append(out, sliceElems(a, depth+1)...)
+		}
+		return out
+	}
+	return nil
 }
 
 func mkPhi(alts []*Shape) *Shape {
@@ -414,6 +462,44 @@ func (sh *Shaper) of(v ssa.Value) *Shape {
 	case *ssa.TypeAssert:
 		return &Shape{K: "assert", S: TypeName(v.AssertedType), A: []*Shape{sh.Of(v.X)}}
 	case *ssa.Slice:
+		if al, ok := v.X.(*ssa.Alloc); ok && al.Comment == "varargs" && al.Referrers() != nil {
+			// the argument list of a variadic call: render its elements
+			l := &Shape{K: "list"}
+			elems := map[int]*Shape{}
+			max := -1
+			for _, ref := range *al.Referrers() {
+				ia, ok := ref.(*ssa.IndexAddr)
+				if !ok || ia.Referrers() == nil {
+					continue
+				}
+				k, ok := ia.Index.(*ssa.Const)
+				if !ok {
+					continue
+				}
+				idx, ok := constInt(k)
+				if !ok {
+					continue
+				}
+				for _, r2 := range *ia.Referrers() {
+					if st, ok := r2.(*ssa.Store); ok && st.Addr == ia {
+						elems[idx] = sh.Of(st.Val)
+						if idx > max {
+							max = idx
+						}
+					}
+				}
+			}
+			if max >= 0 && max < 64 {
+				for i := 0; i <= max; i++ {
+					if e, ok := elems[i]; ok {
+						l.A = append(l.A, e)
+					} else {
+						l.A = append(l.A, atom("unk", "?"))
+					}
+				}
+				return l
+			}
+		}
 		return &Shape{K: "slice", A: []*Shape{sh.addrBase(v.X)}}
 	case *ssa.MakeMap:
 		return &Shape{K: "make", S: "map"}
@@ -775,6 +861,8 @@ func (p *pparser) expr() *Shape {
 			}
 		case word == "phi":
 			cur = &Shape{K: "phi", A: p.argsSep('|')}
+		case strings.HasPrefix(word, "make:") && p.i < len(p.s) && p.s[p.i] == '(':
+			cur = &Shape{K: "make", S: strings.TrimPrefix(word, "make:"), A: p.args()}
 		case word == "true" || word == "false" || word == "nil" || (word[0] >= '0' && word[0] <= '9'):
 			cur = atom("const", word)
 		case strings.HasPrefix(word, "^"):
